@@ -45,6 +45,13 @@ func GetQueryResponseJsonScroll(indexName string, queryStart time.Time, sizeLimi
 	var subset []utils.Hits
 	if scroll.IsScrollIdValid(scrollRecord.Scroll_id) {
 		resultLen := scrollRecord.Results.Hits.GetHits()
+		// only the hits that were fetched can be paged through
+		if numHits := uint64(len(scrollRecord.Results.Hits.Hits)); resultLen > numHits {
+			resultLen = numHits
+		}
+		if scrollRecord.Offset > resultLen {
+			scrollRecord.Offset = resultLen
+		}
 		scrollRecord.Size = checkScrollSize(scrollRecord.Offset, scrollRecord.Size, resultLen)
 		subset = scrollRecord.Results.Hits.Hits[scrollRecord.Offset : scrollRecord.Offset+scrollRecord.Size]
 		scrollRecord.Offset = scrollRecord.Offset + scrollRecord.Size
